@@ -46,6 +46,13 @@ func objName(f *types.Func) string {
 func heeded(c *core.Ctx, fn *ssa.Function, target *types.Func, fw core.FailWhen, min int, boolFail *bool) []ssa.CallInstruction {
 	calls := core.CallsIn(fn, target)
 	key := shortFn(fn) + "→" + objName(target)
+	if len(calls) < min && fw == core.ErrNonNil {
+		// the guard may have been moved into a helper of the same package whose error fn heeds and which itself heeds the guard
+		if g, _ := heededDeep(fn, target, 2); g != nil {
+			c.Check(key, "heeded-guard", true, g.Pos(), "in %s the guard %s is reached and heeded through the same-package helper called here", shortFn(fn), objName(target))
+			return []ssa.CallInstruction{g}
+		}
+	}
 	if len(calls) < min {
 		c.Check(key, "guard-call-present", false, fn.Pos(), "%s must call %s (%d call(s) found, %d expected)", shortFn(fn), objName(target), len(calls), min)
 		return calls
